@@ -2,6 +2,31 @@
 import core
 import proc_common as P
 
+def heartbeat_race(ctx):
+    """cleanup ticks with a notifier configured against a concurrent heartbeat writer (own go test invocation: the failure mode is a
+    fatal runtime error that ends the process, as it would end the guardian)"""
+    rc, out, trace = core.harness_pkg(ctx, "processor", "^TestVerifC13HeartbeatRace$", timeout=900, race=(ctx.tier == "thorough"))
+    rows = core.read_jsonl(trace)
+    for r in rows:
+        if r.get("k") == "c13hb-volume":
+            ctx.cov["cleanup_vs_heartbeat_writer"] = {k: v for k, v in r.items() if k != "k"}
+    fatal = [l for l in out.split("\n") if l.startswith("fatal error:") or "DATA RACE" in l]
+    if fatal:
+        i = out.index(fatal[0])
+        frames = [l.strip() for l in out[i:i + 6000].split("\n") if "wormhole-fork/node/pkg" in l and "(" in l][:4]
+        ctx.problem("monitor", "the process died during a cleanup tick while a heartbeat was being stored: `%s`; frames: %s" % (fatal[0].strip(), " <- ".join(frames)),
+                    "real handleCleanup (notifier configured, 4 guardians, 3 signatures) against a concurrent GuardianSetState.SetHeartbeat writer", concrete=True,
+                    replay={"schedule": "cleanup ticks over settling messages with one missing guardian while heartbeats of that guardian are stored", "output": out[i:i + 3000]},
+                    key="heartbeat-table:fatal")
+        return
+    done = [r for r in rows if r.get("k") == "c13hb"]
+    if rc != 0 or not done:
+        ctx.problem("correspondence", "go harness C13 (cleanup tick against a heartbeat writer)", out[-1500:])
+        return
+    for m in done[0].get("mon") or []:
+        ctx.problem("monitor", m, "observed on the real GuardianSetState", concrete=True, replay={"monitor": m}, key="heartbeat-table:" + ("live" if "live map" in m else "setup"))
+
+
 def run(ctx):
     # X9: the premise of C13 ("a panic there terminates the whole guardian process") as theorems about node.go's supervisor configuration
     st = core.run_extract(ctx, ["servicetree", "supervisor_options"])
@@ -11,6 +36,8 @@ def run(ctx):
     if not ctx.replay:
         import c18
         c18.x9_run(ctx, st, pid="C13", only="panic")     # a panic in a supervised test service under node.go's options, in a child process
+    if not ctx.replay:
+        heartbeat_race(ctx)
     if rows is None:
         return
     ctx.rule = ("generated + scripted histories over the processor's inputs (chain messages incl. empty/nil/long payloads and extreme timestamps, injections before/after the first set, "
